@@ -173,11 +173,17 @@ pub fn render(sc: &Scenario) -> String {
                 let (len, slides): (String, u32) = match (o.z.as_str(), adversarial) {
                     ("min", _) => (String::new(), 1),  // length omitted
                     ("edge", _) => ("0.0001".into(), 1),
+                    ("stat", _) => ("0".into(), 20),
                     ("max", true) => ("20000".into(), 100),
                     ("max", false) => ("600".into(), 4),
                     _ => ("150".into(), 2),
                 };
-                let _ = writeln!(s, "{x},{y},{t},2,0,B|{}:{}|{}:{},{slides}{}{len}", x + 80.0, y + 40.0, x + 160.0, y, if len.is_empty() { "" } else { "," });
+                if o.z == "stat" {
+                    // the only control point is the start position: a path of length zero
+                    let _ = writeln!(s, "{x},{y},{t},2,0,L|{x}:{y},{slides},{len}");
+                } else {
+                    let _ = writeln!(s, "{x},{y},{t},2,0,B|{}:{}|{}:{},{slides}{}{len}", x + 80.0, y + 40.0, x + 160.0, y, if len.is_empty() { "" } else { "," });
+                }
             }
             "P" | "H" => {
                 let dur = match (o.z.as_str(), adversarial) {
